@@ -192,7 +192,9 @@ def isShadowed (d target : DeclInfo) : Bool :=
 structure Plan where
   best : Nat
   hoist : List Bool
-  bestItems : List DE
+  /-- names put in front of / behind the items of the best declaration -/
+  pre : List String
+  post : List String
 deriving Repr, Inhabited
 
 /-- names added by one hoisted declaration: those not yet declared by the target (`orig`) -/
@@ -230,15 +232,21 @@ def plan (ds : List DeclInfo) : Option Plan :=
   let flags := scores.zipIdx.map (fun p => decide (0 ≤ p.1) && p.2 != best)
   let r := planLoop best target ((ds.zip flags).zipIdx.map (fun p => (p.1.1, p.1.2, p.2)))
     (itemNames target.items) [] []
-  some ⟨best, r.1, r.2.1.map bare ++ target.items ++ r.2.2.map bare⟩
+  some ⟨best, r.1, r.2.1, r.2.2⟩
+
+/-- the item list of the best declaration after hoisting -/
+def Plan.bestItems (p : Plan) (items : List DE) : List DE := p.pre.map bare ++ items ++ p.post.map bare
+
+/-- what `hoistVars` does to the declaration with index `n` and items `items` -/
+def Plan.act (p : Plan) (n : Nat) (items : List DE) : DS :=
+  if n == p.best then .decl .var (p.bestItems items)
+  else if p.hoist.getD n false then .decl .hoisted items else .decl .var items
 
 mutual
 /-- rewrite the `var` declarations of a function body according to the plan; the counter is the index in
     `Scope.VarDecls` (same traversal as `collectS`) -/
 def applyS (p : Plan) : DS → Nat → DS × Nat
-  | .decl .var items, n =>
-    (if n == p.best then .decl .var p.bestItems
-     else if p.hoist.getD n false then .decl .hoisted items else .decl .var items, n + 1)
+  | .decl .var items, n => (p.act n items, n + 1)
   | .ifS c t e, n =>
     let r1 := applyS p t n
     let r2 := applyS p e r1.2
@@ -247,13 +255,11 @@ def applyS (p : Plan) : DS → Nat → DS × Nat
   | .forS w i c po b, n =>
     match i with
     | .decl .var items =>
-      let i' : DS := if n == p.best then .decl .var p.bestItems
-        else if p.hoist.getD n false then .decl .hoisted items else .decl .var items
       let r := applyL p b (n + 1)
-      (.forS w i' c po r.1, r.2)
+      (.forS w (p.act n items) c po r.1, r.2)
     | .empty =>
       let r := applyL p b n
-      let i' : DS := if r.2 == p.best then (if p.bestItems.isEmpty then .empty else .decl .var p.bestItems) else .empty
+      let i' : DS := if r.2 == p.best && !(p.bestItems []).isEmpty then .decl .var (p.bestItems []) else .empty
       (.forS w i' c po r.1, r.2 + 1)
     | _ => let r := applyL p b n; (.forS w i c po r.1, r.2)
   | .tryS b x a cb, n =>
@@ -454,7 +460,7 @@ def hoistStore (ds : List DeclInfo) : Store :=
   match plan ds with
   | none => ds.map (fun d => ⟨.var, d.items, true⟩)
   | some p => ds.zipIdx.map (fun di =>
-      if di.2 == p.best then ⟨.var, p.bestItems, true⟩
+      if di.2 == p.best then ⟨.var, p.bestItems di.1.items, true⟩
       else if p.hoist.getD di.2 false then ⟨.hoisted, di.1.items, true⟩ else ⟨.var, di.1.items, true⟩)
 
 mutual
